@@ -275,6 +275,24 @@ def step (st : St) (tok : List String) (_line : String) (impl : Option String) :
   | ["hs", _raw] => (st, predict "transport-accept-thread" [] ++ echoTail impl, judgeAt "transport-accept-thread" impl)
   | ["ctl", raw] => stepCtl st raw impl
   | ["tick"] => (st, predict "main-loop-tick" [] ++ echoTail impl, judgeAt "main-loop-tick" impl)
+  | ["rt", "stall"] =>
+    -- one silent client ahead of a well-behaved one, on each accept loop; the expectation follows the
+    -- read-timeout flags regenerated from the source (`Escape.secondClientServed`)
+    let ctl2 := if secondClientServed controlReadTimeout then "OK_PING" else "timeout"
+    let tr2 := if secondClientServed transportPeerIdTimeout then "acked" else "timeout"
+    let model := s!"ok ctl-second={ctl2} ctl-after=OK_PING tr-second={tr2} tr-after=acked"
+    let verdict := match impl with
+      | none => "ok"
+      | some l =>
+        if !l.startsWith "ok" then EscapeSpec.judge l
+        else if (field l "tr-second") != some "acked" then
+          "viol:stops-serving-transport:a silent inbound connection keeps the transport accept thread from the next peer"
+        else if (field l "ctl-after") != some "OK_PING" || (field l "tr-after") != some "acked" then
+          "viol:stops-serving-after-release:an accept loop does not recover after the silent client left"
+        else if (field l "ctl-second") != some "OK_PING" then
+          "viol:stops-serving-control:a silent control client keeps the control accept thread from the next client"
+        else "ok"
+    (st, model, verdict)
   | ["rt", _] =>
     -- real threads: the process survived iff the line is there at all; every probe must have been answered
     let verdict := match impl with
